@@ -314,6 +314,39 @@ func Catalogue(prop, tier string) []Cfg {
 			c.Late, c.Horizon = 1, 20
 			add(c)
 		}
+	case "C20":
+		rc := func(disc string, mod func(c *Cfg)) {
+			c := Cfg{Harness: "race", Disc: disc, P: []uint{2, 1}, H: 2, Cap: []int{1}, N: []int{2}, J: 2, Bound: -1}
+			mod(&c)
+			add(c)
+		}
+		rc("v2", func(c *Cfg) {})
+		rc("v2", func(c *Cfg) { c.Cap = []int{0}; c.N = []int{1} })
+		rc("s2", func(c *Cfg) { c.N = []int{1} })
+		rc("v1", func(c *Cfg) { c.N = []int{1} })
+		rc("v1", func(c *Cfg) { c.N = []int{1}; c.Script = 1 })
+		rc("v1", func(c *Cfg) { c.N = []int{1}; c.Stop = "stop"; c.OutCap, c.FbCap = 1, 1 })
+		rc("v1", func(c *Cfg) { c.N = []int{1}; c.Stop = "cancel" })
+		rc("s1", func(c *Cfg) { c.N = []int{1} })
+		rc("s1", func(c *Cfg) { c.N = []int{1}; c.Stop = "stop" })
+		rc("s1", func(c *Cfg) { c.N = []int{1}; c.Stop = "cancel" })
+		for _, nocopy := range []bool{false, true} {
+			rc("join2", func(c *Cfg) { c.N = []int{5}; c.NoCopy = nocopy })
+			rc("join2", func(c *Cfg) { c.N = []int{4}; c.NoCopy = nocopy; c.Timeout = 4; c.Cap = []int{0} })
+			rc("unite2", func(c *Cfg) { c.N = []int{4}; c.NoCopy = nocopy; c.Timeout = 4 })
+			rc("unite2", func(c *Cfg) { c.N = []int{5}; c.NoCopy = nocopy; c.J = 3 })
+			rc("join1", func(c *Cfg) { c.N = []int{4}; c.NoCopy = nocopy })
+			rc("join1", func(c *Cfg) { c.N = []int{4}; c.NoCopy = nocopy; c.Stop = "stop"; c.Timeout = 4 })
+			rc("join1", func(c *Cfg) { c.N = []int{4}; c.NoCopy = nocopy; c.Stop = "cancel" })
+		}
+		rc("limit", func(c *Cfg) { c.Q, c.I, c.N = 2, 3, []int{5} })
+		rc("limit", func(c *Cfg) { c.Q, c.I, c.N, c.Cap = 1, 2, []int{3}, []int{0} })
+		if !quick {
+			rc("v2", func(c *Cfg) { c.P = []uint{3, 2, 1}; c.H = 3; c.N = []int{1} })
+			rc("v2", func(c *Cfg) { c.N = []int{3}; c.Cap = []int{2} })
+			rc("s2", func(c *Cfg) { c.N = []int{2} })
+			rc("v1", func(c *Cfg) { c.N = []int{2}; c.Script = 1 })
+		}
 	case "C16":
 		for _, stop := range []string{"stop", "cancel"} {
 			for _, mode := range []string{"", "norelease", "noread"} {
